@@ -129,11 +129,12 @@ def make_app(kind):
 # ---------------------------------------------------------------------------
 # one connection
 
-WALL_CAP = 10.0  # seconds of real time for one delivery (normal: milliseconds)
+WALL_CAP = 10.0  # seconds of *CPU time of this process* (ITIMER_VIRTUAL) for one delivery;
+# normal deliveries use milliseconds, machine load cannot make the timer run
 
 
 class _WallWatchdog(KeyboardInterrupt):
-    """Raised from SIGALRM when code under test spins without ever yielding to the loop
+    """Raised from SIGVTALRM when code under test spins without ever yielding to the loop
     (the simulator's iteration cap cannot see that).  A KeyboardInterrupt subclass because
     asyncio lets only those escape from a task step."""
 
@@ -186,11 +187,11 @@ def deliver(stream, seg, app_kind, server_kwargs, full_log=False, extra_tapes=No
     # max_iters); it turns "request bytes make the server spin forever inside one callback"
     # into a reported violation instead of a watchdog kill of the whole worker.
     try:
-        old_handler = signal.signal(signal.SIGALRM, _on_alarm)
+        old_handler = signal.signal(signal.SIGVTALRM, _on_alarm)
     except ValueError:  # not the main thread: run without the net
         old_handler = None
-    if old_handler is not None or signal.getsignal(signal.SIGALRM) is _on_alarm:
-        signal.setitimer(signal.ITIMER_REAL, WALL_CAP + len(stream) * 2e-4, 3.0)
+    if old_handler is not None or signal.getsignal(signal.SIGVTALRM) is _on_alarm:
+        signal.setitimer(signal.ITIMER_VIRTUAL, WALL_CAP + len(stream) * 2e-4, 3.0)
     try:
         _deliver_inner(o, state, stream, cuts, gaps, cap, tapes, app_kind, kw, full_log)
     except _WallWatchdog:
@@ -198,9 +199,9 @@ def deliver(stream, seg, app_kind, server_kwargs, full_log=False, extra_tapes=No
         rapp = state.get("rapp")
         o.recs = rapp.records if rapp is not None else []
     finally:
-        if signal.getsignal(signal.SIGALRM) is _on_alarm:
-            signal.setitimer(signal.ITIMER_REAL, 0)
-            signal.signal(signal.SIGALRM, old_handler if old_handler is not None
+        if signal.getsignal(signal.SIGVTALRM) is _on_alarm:
+            signal.setitimer(signal.ITIMER_VIRTUAL, 0)
+            signal.signal(signal.SIGVTALRM, old_handler if old_handler is not None
                           else signal.SIG_DFL)
     _digest_recs(o)
     return o
@@ -359,7 +360,7 @@ def judge(ref, o, bad, probe, tag=""):
     for a in o.anomalies:
         bad("delegate.call_sequence", a, "delegate.call_sequence")
     if o.status == "wall_watchdog":
-        bad("run.cpu_hang", "the server spun for more than %.0f s of real time inside one loop "
+        bad("run.cpu_hang", "the server spun for more than %.0f s of CPU time inside one loop "
             "callback without yielding (request bytes made it loop forever)" % WALL_CAP,
             "run.cpu_hang")
         return
@@ -439,7 +440,7 @@ def judge(ref, o, bad, probe, tag=""):
     # ---- logs: peer input must never surface as an application error
     for lg, lvl, msg, exc in o.records:
         if exc == "_WallWatchdog":
-            bad("run.cpu_hang", "the server spun for more than %.0f s of real time inside one "
+            bad("run.cpu_hang", "the server spun for more than %.0f s of CPU time inside one "
                 "loop callback without yielding" % WALL_CAP, "run.cpu_hang")
             return
         if lvl in ("ERROR", "CRITICAL") and (lg == "tornado.application"
